@@ -412,3 +412,469 @@ def gen_namespace(rng: random.Random, name: str, depth: int = 2) -> tuple[list[d
         if rng.random() < 0.5:
             r0[f"{name}/nested_ns/other.py"] = "other_value = 2\n"
     return [r0, r1], sorted(g.features | {"namespace"})
+
+
+# -- scopes that bind one name several times ----------------------------------------------------------------------------
+# A loaded tree remembers more about a scope than its final members (the visitor's record of import statements,
+# TYPE_CHECKING guards, the order in which statements re-bound a name); a dump carries only the final members.  The
+# packages below make the two disagree: every module binds each of a handful of names by *several* statements of
+# different kinds (import / def / class / assignment / annotation / wildcard import), arranged as plain sequences,
+# optional-dependency idioms (try-import / except-define, define / try-import-override), conditional re-bindings
+# (if/else, TYPE_CHECKING, version tests), at module and at class level, in plain modules, package __init__ modules,
+# sub-package modules (two-dot relative imports) and stub/module pairs - and then uses every such name in every
+# expression slot (decorator, base, attribute/parameter/return annotation, default, value), in the binding scope and
+# in scopes nested below it.
+REBIND_WRAPPERS = ("seq", "seq", "seq", "try", "try", "define-try-override", "try-else", "if-else", "if-else", "then-if", "if-then")
+REBIND_ORDERS = ("imp-def", "imp-def", "def-imp", "imp-imp", "def-def", "imp-def-imp", "def-imp-def", "imp-wild", "wild-def", "def-wild",
+                 "wild-imp", "imp-def-annonly")
+REBIND_POSITIONS = ("decorator", "decorator-call", "decorator-keyword", "class-decorator", "base", "base-attribute", "base-subscript",
+                    "attribute-annotation", "attribute-value", "attribute-value-nested", "parameter-annotation", "parameter-default",
+                    "returns", "string-annotation", "keyword-argument", "lambda-default", "method", "nested-class", "dotted-value")
+_FLEX = "    if len(args) == 1 and not kwargs and callable(args[0]):\n        return args[0]\n    return lambda obj: obj\n"
+
+
+class RebindGen(RichGen):
+    """Packages whose scopes bind names several times by different kinds of statements (see the comment above)."""
+
+    def __init__(self, rng: random.Random, name: str, *, flavour: str = "static", depth: int = 2) -> None:
+        super().__init__(rng, name, flavour=flavour, depth=depth)
+        self.donor_names = {"deco": ["rd_one", "rd_two", "rd_three"], "cls": ["RcOne", "RcTwo", "RcThree"], "val": ["rv_one", "rv_two", "rv_three"]}
+        self.originals = {"deco": "orig_deco", "cls": "OrigCls", "val": "orig_val"}
+
+    # -- the donors: two modules defining the same names --------------------------------------------------------------
+    def donor(self, tag: str) -> str:
+        r = self.rng
+        src = f'"""Donor {tag}."""\n'
+        if self.flavour == "importable":
+            src += "from __future__ import annotations\n"
+        names: list[str] = []
+        for role, pool in self.donor_names.items():
+            for n in [*pool, self.originals[role]]:
+                names.append(n)
+                if role == "deco":
+                    src += f"\n\ndef {n}(*args, **kwargs):\n    \"\"\"Decorator {n} of donor {tag}.\"\"\"\n{_FLEX}"
+                elif role == "cls":
+                    src += f"\n\nclass {n}:\n    \"\"\"Class {n} of donor {tag}.\"\"\"\n\n    inner = '{tag}'\n\n    class Inner:\n        pass\n"
+                else:
+                    src += f"\n{n} = 'donor {tag} {n}'\n"
+        form = r.random()
+        if form < 0.5:
+            src += f"\n__all__ = {names!r}\n"
+        elif form < 0.7:
+            src += f"\n__all__ = {tuple(names)!r}\n"
+        return src
+
+    # -- one binding statement -------------------------------------------------------------------------------------------
+    def binder(self, kind: str, n: str, role: str, ind: str, rel: str) -> str:  # noqa: PLR0911, PLR0912
+        r = self.rng
+        pkg = self.name
+        donor = r.choice(["donor_a", "donor_b"])
+        if kind == "from-abs":
+            return f"{ind}from {pkg}.{donor} import {n}\n"
+        if kind == "from-rel":
+            return f"{ind}from {rel}{donor} import {n}\n"
+        if kind == "from-as":
+            other = r.choice([self.originals[role], *self.donor_names[role]]) if role in self.originals else "orig_val"
+            return f"{ind}from {rel}{donor} import {other} as {n}\n"
+        if kind == "from-multi":
+            other = self.originals.get(role, "orig_val")
+            return f"{ind}from {rel}{donor} import (\n{ind}    {other} as unused_{n},\n{ind}    {n},\n{ind})\n"
+        if kind == "import-as":
+            return r.choice([f"{ind}import {pkg}.{donor} as {n}\n", f"{ind}from {rel} import {donor} as {n}\n"])
+        if kind == "missing":
+            return r.choice([f"{ind}from vf_missing_dep.fast import {n}\n", f"{ind}from vf_missing_dep import speedups as {n}\n",
+                             f"{ind}import vf_missing_dep.fast as {n}\n"])
+        if kind == "stdlib":
+            table = {"deco": ["from functools import cache as {n}", "from functools import wraps as {n}", "from typing import final as {n}"],
+                     "cls": ["from typing import Protocol as {n}", "from collections import OrderedDict as {n}", "from abc import ABC as {n}"],
+                     "val": ["from os import sep as {n}", "from sys import maxsize as {n}", "import json as {n}"]}
+            return ind + r.choice(table.get(role, table["val"])).format(n=n) + "\n"
+        if kind == "wildcard":
+            return f"{ind}from {rel}{donor} import *\n"
+        if kind == "def":
+            pre = "async " if self.flavour == "static" and r.random() < 0.1 else ""
+            return f"{ind}{pre}def {n}(*args, **kwargs):\n{ind}    \"\"\"Local fallback {n}.\"\"\"\n" + "".join(ind + ln + "\n" for ln in _FLEX.splitlines())
+        if kind == "class":
+            base = f"({self.originals['cls']})" if r.random() < 0.3 else ""
+            return f"{ind}class {n}{base}:\n{ind}    \"\"\"Local class {n}.\"\"\"\n\n{ind}    inner = 'local'\n\n{ind}    class Inner:\n{ind}        pass\n"
+        if kind == "assign":
+            value = self.originals[role] if role in self.originals and role != "val" else r.choice(["'local value'", self.originals["val"], "None"])
+            if self.flavour == "static" and r.random() < 0.3:
+                value = self.value()
+            return f"{ind}{n} = {value}\n" + self.docstring(ind, 0.3)
+        if kind == "annassign":
+            value = self.originals[role] if role in self.originals and role != "val" else "'annotated local value'"
+            return f"{ind}{n}: {self.ann()} = {value}\n"
+        if kind == "annonly":
+            return f"{ind}{n}: {self.ann()}\n"
+        if kind == "pass":
+            return f"{ind}pass\n"
+        raise ValueError(kind)
+
+    def _imp_kind(self, role: str, *, runs: object, scope: str) -> str:
+        """An import statement kind; ``runs`` = True (executed on import), False (never executed), 'try' (inside a try body)."""
+        r = self.rng
+        kinds = ["from-abs", "from-rel", "from-rel", "from-as", "from-multi"]
+        if self.flavour == "static":
+            kinds += ["stdlib", "stdlib", "missing", "import-as"]
+        elif runs is not True:
+            kinds += ["missing", "missing", "missing"]
+        return r.choice(kinds)
+
+    def _def_kind(self, role: str) -> str:
+        r = self.rng
+        by_role = {"deco": ["def", "def", "assign"], "cls": ["class", "class", "assign"], "val": ["assign", "annassign"]}
+        if self.flavour == "static" and r.random() < 0.25:
+            return r.choice(["def", "class", "assign", "annassign"])
+        return r.choice(by_role[role])
+
+    # -- one plan: several binders of one name, wrapped ----------------------------------------------------------------------
+    def plan(self, n: str, role: str, ind: str, rel: str, scope: str, between: str = "") -> str:  # noqa: C901, PLR0912
+        r = self.rng
+        wrapper = r.choice(REBIND_WRAPPERS)
+        b = lambda kind, i=ind: self.binder(kind, n, role, i, rel)  # noqa: E731
+        inner = ind + "    "
+        imp = lambda runs: self._imp_kind(role, runs=runs, scope=scope)  # noqa: E731
+        true_c = r.choice(["sys.version_info >= (3, 8)", "not TYPE_CHECKING", "True", "sys.version_info[0] == 3"])
+        false_c = r.choice(["TYPE_CHECKING", "typing.TYPE_CHECKING", "sys.version_info < (3,)", "False"])
+        if wrapper == "seq":
+            order = r.choice([o for o in REBIND_ORDERS if scope == "module" or "wild" not in o])
+            self.features.add(f"rebind:seq:{order}")
+            out = []
+            for part in order.split("-"):
+                kind = {"imp": imp(True), "def": self._def_kind(role), "wild": "wildcard", "annonly": "annonly"}[part]
+                out.append(b(kind))
+            return out[0] + between + "".join(out[1:])
+        if wrapper == "try":
+            first = imp("try")
+            second = r.choice([self._def_kind(role), self._def_kind(role), imp(True)])
+            self.features.add("rebind:try-import-except-define")
+            exc = r.choice(["ImportError", "ImportError", "(ImportError, AttributeError)", "ModuleNotFoundError", "Exception"])
+            return f"{ind}try:\n{b(first, inner)}{ind}except {exc}:\n{b(second, inner)}"
+        if wrapper == "define-try-override":
+            self.features.add("rebind:define-try-import-override")
+            return (b(self._def_kind(role)) + between + f"{ind}try:\n{b(imp('try'), inner)}{ind}except ImportError:\n{inner}pass\n")
+        if wrapper == "try-else":
+            self.features.add("rebind:try-else")
+            probe = r.choice([f"{inner}import {self.name}.donor_a\n", f"{inner}import vf_missing_dep\n"])
+            return (f"{ind}try:\n{probe}{ind}except ImportError:\n{b(self._def_kind(role), inner)}{ind}else:\n{b(imp(True), inner)}"
+                    if "missing" not in probe else
+                    f"{ind}try:\n{probe}{ind}except ImportError:\n{b(self._def_kind(role), inner)}{ind}else:\n{b(imp(False), inner)}")
+        if wrapper == "if-else":
+            self.features.add("rebind:if-else")
+            if r.random() < 0.5:  # the condition holds at run time: the first branch runs
+                first, second = r.choice([(imp(True), self._def_kind(role)), (self._def_kind(role), imp(False))])
+                return f"{ind}if {true_c}:\n{b(first, inner)}{ind}else:\n{b(second, inner)}"
+            first, second = r.choice([(imp(False), self._def_kind(role)), (self._def_kind(role), imp(True)), (imp(False), imp(True))])
+            return f"{ind}if {false_c}:\n{b(first, inner)}{ind}else:\n{b(second, inner)}"
+        if wrapper == "then-if":
+            self.features.add("rebind:conditional-rebinding")
+            holds = r.random() < 0.5
+            first, second = r.choice([(imp(True), self._def_kind(role)), (self._def_kind(role), imp(holds))])
+            return b(first) + between + f"{ind}if {true_c if holds else false_c}:\n{b(second, inner)}"
+        # if-then: a guarded first binding, unconditionally re-bound below
+        self.features.add("rebind:guarded-then-rebound")
+        holds = r.random() < 0.5
+        return f"{ind}if {true_c if holds else false_c}:\n{b(imp(holds), inner)}" + between + b(self._def_kind(role))
+
+    # -- uses of a name in one expression slot ---------------------------------------------------------------------------------
+    def use(self, position: str, n: str, role: str, ind: str, scope: str, others: dict[str, list[str]]) -> str:  # noqa: C901, PLR0911, PLR0912
+        """A statement using ``n`` in ``position``; in the importable flavour only where the role of ``n`` makes it executable."""
+        r = self.rng
+        static = self.flavour == "static"
+        k = self.fresh("u")
+        self_p = "self, " if scope == "class" else ""
+        body = f"{ind}    return None\n"
+        ann_forms = [n, f"Optional[{n}]", f"List[{n}]", f"typing.Dict[str, {n}]", f"'{n}'", f"Union[{n}, None]", f"t.Callable[[{n}], {n}]",
+                     f"tuple[{n}, ...]", f"{n} | None"]
+        if static:
+            ann_forms += [f"{n}.Inner", f"List[{n}.Inner]", f"{n}[int]"]
+        ann = r.choice(ann_forms)
+        val_name = (others.get("val") or [n])[0] if not static else r.choice(sum(others.values(), []) or [n])
+        if position in ("decorator", "decorator-call", "decorator-keyword", "class-decorator"):
+            if not static and role != "deco":
+                return ""
+            deco = {"decorator": n, "decorator-call": f"{n}()", "decorator-keyword": f"{n}(key={val_name}, other=1)", "class-decorator": n}[position]
+            if static and r.random() < 0.2:
+                deco = f"{n}.inner" if position == "decorator" else deco
+            if position == "class-decorator":
+                return f"{ind}@{deco}\n{ind}class K{k}:\n{ind}    \"\"\"Decorated by {n}.\"\"\"\n"
+            return f"{ind}@{deco}\n{ind}def f{k}({self_p}p: {self.ann()} = None):\n{body}"
+        if position in ("base", "base-attribute", "base-subscript"):
+            if not static and role != "cls":
+                return ""
+            base = {"base": n, "base-attribute": f"{n}.Inner", "base-subscript": f"List[{n}]"}[position]
+            extra = ", metaclass=abc.ABCMeta" if r.random() < 0.15 and position == "base-attribute" else ""
+            return f"{ind}class K{k}({base}{extra}):\n{ind}    \"\"\"Derives from {n}.\"\"\"\n"
+        if position == "attribute-annotation":
+            return f"{ind}v{k}: {ann}\n" if r.random() < 0.5 else f"{ind}v{k}: {ann} = None\n"
+        if position == "attribute-value":
+            if static or role == "cls":
+                return f"{ind}v{k} = {r.choice([n, n + '()', n + '.inner', n + '.Inner'])}\n"
+            return f"{ind}v{k} = {n}\n"
+        if position == "attribute-value-nested":
+            forms = [f"[{n}, {n}]", f"{{'k': {n}}}", f"({n},)", f"{n} if {n} else None", f"[{n}][0]", f"{n} is not None", f"f'{{{n}}}'",
+                     f"dict(k={n})", f"not {n}", f"{n} or None"]
+            if scope == "module" or static:
+                forms += [f"[{n} for _ in range(2)]", f"{{i: {n} for i in range(2)}}"]
+            return f"{ind}v{k} = {r.choice(forms)}\n"
+        if position == "parameter-annotation":
+            return f"{ind}def f{k}({self_p}p: {ann}, *args: {n}, key: {ann} = None, **kwargs: {n}):\n{body}"
+        if position == "parameter-default":
+            return f"{ind}def f{k}({self_p}p={n}, /, q: {self.ann()} = {n}, *, key={n}):\n{body}"
+        if position == "returns":
+            return f"{ind}def f{k}({self_p.rstrip(', ')}) -> {ann}:\n{body}"
+        if position == "string-annotation":
+            return f"{ind}v{k}: 'List[{n}]' = None\n{ind}def f{k}({self_p}p: '{n}') -> 'Optional[{n}]':\n{body}"
+        if position == "keyword-argument":
+            deco = (others.get("deco") or ["deco_args"])[0] if not static else r.choice((others.get("deco") or []) + ["deco_args"])
+            return f"{ind}v{k} = dict(key={n})\n{ind}@{deco}(key={n})\n{ind}def f{k}({self_p.rstrip(', ')}):\n{body}"
+        if position == "lambda-default":
+            return f"{ind}v{k} = lambda p={n}, *a, k={n}: p\n"
+        if position == "dotted-value":
+            if static:
+                return f"{ind}v{k} = {n}.inner.real\n{ind}w{k}: {n}.Inner = {n}.Inner()\n"
+            if role == "cls":
+                return f"{ind}v{k} = {n}.inner\n{ind}w{k}: {n}.Inner = {n}.Inner()\n"
+            return f"{ind}v{k} = {n}\n"
+        if position == "method":
+            if scope == "class":
+                return f"{ind}def m{k}(self, p: {ann} = {n}) -> {ann}:\n{ind}    \"\"\"Method using {n}.\"\"\"\n{body}"
+            deco = f"    @{n}\n" if static or role == "deco" else ""
+            return (f"{ind}class K{k}:\n{ind}    \"\"\"Uses {n} one scope below its bindings.\"\"\"\n\n{ind}    a{k}: {ann} = {n}\n\n"
+                    f"{ind}{deco}{ind}    def m{k}(self, p: {ann} = {n}) -> {ann}:\n{ind}        return None\n")
+        if position == "nested-class":
+            # (at run time a class body nested in a class body does not see the names of the outer class body)
+            visible = static or scope == "module"
+            base = f"({n})" if static or (role == "cls" and visible) else ""
+            value = n if visible else "None"
+            return (f"{ind}class K{k}:\n{ind}    class Nested{k}{base}:\n{ind}        n{k}: {ann} = {value}\n\n"
+                    f"{ind}        def deep{k}(self, p: {ann} = {value}) -> {ann}:\n{ind}            return None\n")
+        raise ValueError(position)
+
+    # -- a scope: plans for several names, then uses -----------------------------------------------------------------------------
+    def scope_body(self, ind: str, rel: str, scope: str, tag: str) -> str:
+        r = self.rng
+        chosen: list[tuple[str, str]] = []
+        for role, pool in self.donor_names.items():
+            for n in r.sample(pool, r.randint(1, len(pool)) if scope == "module" else r.randint(0, 2)):
+                chosen.append((n, role))
+        if not chosen:
+            chosen.append((self.donor_names["cls"][0], "cls"))
+        r.shuffle(chosen)
+        if scope == "module":
+            self.module_names = [n for n, _ in chosen]
+        by_role: dict[str, list[str]] = {}
+        for n, role in chosen:
+            by_role.setdefault(role, []).append(n)
+        src = ""
+        positions = list(REBIND_POSITIONS)
+        r.shuffle(positions)
+        done: list[tuple[str, str]] = []
+        for n, role in chosen:
+            between = ""
+            if r.random() < 0.25:
+                # a use between two bindings of the same name
+                # (annotations only where the module is really imported: the name may still be unbound at this point)
+                slots = ["attribute-annotation", "parameter-annotation", "returns"] + (["attribute-value", "parameter-default"] if self.flavour == "static" else [])
+                between = self.use(r.choice(slots), n, role, ind, scope,
+                                   {ro: [x for x in xs if (x, ro) in done] for ro, xs in by_role.items()})
+            src += self.plan(n, role, ind, rel, scope, between) + "\n"
+            done.append((n, role))
+        i = 0
+        for n, role in chosen:
+            for _ in range(r.randint(3, 6) if scope == "module" else r.randint(2, 4)):
+                src += self.use(positions[i % len(positions)], n, role, ind, scope, by_role)
+                i += 1
+            src += "\n"
+        # the remaining slots, each with some name it can hold
+        while i < len(positions) and r.random() < 0.8:
+            n, role = r.choice(chosen)
+            src += self.use(positions[i], n, role, ind, scope, by_role)
+            i += 1
+        if scope == "module" and r.random() < 0.7:
+            # a class that re-binds names at class level
+            cname = self.fresh("Scope")
+            src += f"\n\nclass {cname}:\n    \"\"\"Class-level bindings ({tag}).\"\"\"\n\n" + self.scope_body(ind + "    ", rel, "class", tag)
+        return src
+
+    def rebinding_module(self, rel: str, tag: str) -> str:
+        src = self.docstring("", 0.6)
+        if self.flavour == "importable" or self.rng.random() < 0.5:
+            src += "from __future__ import annotations\n"
+        src += ("import abc\nimport sys\nimport typing\nimport typing as t\nfrom typing import List, Optional, Union, TYPE_CHECKING\n"
+                f"from {rel}donor_a import orig_deco, OrigCls, orig_val\n"
+                "\n\ndef deco_args(*args, **kwargs):\n    return lambda obj: obj\n\n\n")
+        src += self.scope_body("", rel, "module", tag)
+        if self.rng.random() < 0.4:
+            exported = [n for n in self.module_names if self.rng.random() < 0.6]
+            src += f"\n__all__ = {exported!r}\n"
+        return src
+
+    def package(self) -> dict[str, str]:
+        r = self.rng
+        nm = self.name
+        files = {f"{nm}/donor_a.py": self.donor("a"), f"{nm}/donor_b.py": self.donor("b")}
+        files[f"{nm}/scopes.py"] = self.rebinding_module(".", "plain module")
+        if r.random() < 0.5:
+            files[f"{nm}/__init__.py"] = self.rebinding_module(".", "package init")
+        else:
+            files[f"{nm}/__init__.py"] = self.docstring("", 0.7) + r.choice(["", "from .scopes import *\n", f"from {nm} import scopes\n", "from . import scopes as sc\n"])
+        if r.random() < 0.5:
+            files[f"{nm}/sub/__init__.py"] = self.rebinding_module("..", "sub-package init") if r.random() < 0.4 else self.docstring("", 0.4)
+            files[f"{nm}/sub/inner.py"] = self.rebinding_module("..", "sub-package module")
+        if self.flavour == "static" and r.random() < 0.25:
+            # a stub next to the module: names imported in one of them and defined in the other
+            stub = "from typing import Any\n"
+            for role, pool in self.donor_names.items():
+                n = r.choice(pool)
+                stub += r.choice([f"from .donor_b import {n}\n", f"from {nm}.donor_a import {self.originals[role]} as {n}\n",
+                                  f"def {n}(*args: Any, **kwargs: Any) -> Any: ...\n" if role == "deco" else
+                                  f"class {n}:\n    inner: str\n" if role == "cls" else f"{n}: str\n"])
+            stub += f"def stub_user(p: {r.choice(self.donor_names['cls'])} = ...) -> {r.choice(self.donor_names['cls'])}: ...\n"
+            files[f"{nm}/scopes.pyi"] = stub
+            self.features.add("rebind:stub-and-module")
+        return files
+
+
+def gen_rebinding_package(rng: random.Random, name: str, *, flavour: str = "static", depth: int = 2) -> tuple[dict[str, str], list[str]]:
+    """A package whose scopes bind names several times by different kinds of statements and use them in every expression slot."""
+    g = RebindGen(rng, name, flavour=flavour, depth=depth)
+    files = g.package()
+    return files, sorted(g.features)
+
+
+# -- packages with stubs: next to the sources, as a `<name>-stubs` package (same or other search path), stubs only ------------
+STUB_LAYOUTS = ("inline", "inline", "stubs-package", "stubs-package", "stubs-package-other-path", "stubs-package-other-path",
+                "stubs-only", "module-and-stub", "inline+stubs-package")
+
+
+class StubGen(RichGen):
+    """Derives `.pyi` files from generated modules the way a stub generator would (same names, bodies elided, defaults `...`,
+    annotations rewritten, overloads added, a few names only the stub declares) and lays sources and stubs out on disk."""
+
+    def _stub_function(self, node: ast.AST, ind: str) -> str:
+        r = self.rng
+        args = node.args  # type: ignore[attr-defined]
+        for a in [*args.posonlyargs, *args.args, *args.kwonlyargs, args.vararg, args.kwarg]:
+            if a is not None and a.arg not in ("self", "cls"):
+                if r.random() < 0.6:
+                    a.annotation = ast.parse(self.ann(), mode="eval").body
+                elif r.random() < 0.3:
+                    a.annotation = None
+        args.defaults = [ast.Constant(...) for _ in args.defaults]
+        args.kw_defaults = [None if d is None else ast.Constant(...) for d in args.kw_defaults]
+        keep = [d for d in node.decorator_list if ast.unparse(d).split(".")[-1].split("(")[0] in  # type: ignore[attr-defined]
+                ("staticmethod", "classmethod", "property", "setter", "deleter", "overload", "abstractmethod", "cached_property", "final")]
+        src = "".join(f"{ind}@{ast.unparse(d)}\n" for d in keep)
+        pre = "async " if isinstance(node, ast.AsyncFunctionDef) else ""
+        ret = f" -> {self.ann()}" if r.random() < 0.7 else ""
+        head = f"{ind}{pre}def {node.name}({ast.unparse(args)}){ret}:"  # type: ignore[attr-defined]
+        if not keep and r.random() < 0.15:
+            # an overloaded signature in the stub for a plain function of the module
+            return (f"{ind}@overload\n{ind}def {node.name}(a: int) -> int: ...\n{ind}@overload\n"  # type: ignore[attr-defined]
+                    f"{ind}def {node.name}(a: str, b: {self.ann()} = ...) -> str: ...\n")
+        if r.random() < 0.2:
+            return f"{src}{head}\n{ind}    \"\"\"Docstring written in the stub.\"\"\"\n"
+        return f"{src}{head} ...\n"
+
+    def _stub_body(self, body: list, ind: str, level: int = 0) -> str:  # noqa: C901
+        r = self.rng
+        src = ""
+        for node in body:
+            if r.random() < 0.25:
+                continue  # the stub does not know this member
+            if isinstance(node, (ast.FunctionDef, ast.AsyncFunctionDef)):
+                src += self._stub_function(node, ind)
+            elif isinstance(node, ast.ClassDef):
+                bases = ", ".join(ast.unparse(b) for b in node.bases) if r.random() < 0.7 else ""
+                inner = self._stub_body(node.body, ind + "    ", level + 1) if level < 2 else ""
+                if r.random() < 0.3:
+                    inner += f"{ind}    only_in_stub_{node.name}: {self.ann()}\n"
+                src += f"{ind}class {node.name}" + (f"({bases})" if bases else "") + ":" + (f"\n{inner}" if inner else " ...\n")
+            elif isinstance(node, (ast.Assign, ast.AnnAssign)):
+                targets = node.targets if isinstance(node, ast.Assign) else [node.target]
+                for t in targets:
+                    if isinstance(t, ast.Name) and not t.id.startswith("__"):
+                        src += f"{ind}{t.id}: {self.ann()}\n" if r.random() < 0.8 else f"{ind}{t.id}: {self.ann()} = ...\n"
+            elif isinstance(node, (ast.Import, ast.ImportFrom)) and r.random() < 0.6 and level == 0:
+                if not (isinstance(node, ast.ImportFrom) and node.module == "__future__"):
+                    src += f"{ind}{ast.unparse(node)}\n"
+        return src
+
+    def stub_of(self, source: str) -> str:
+        r = self.rng
+        try:
+            tree = ast.parse(source)
+        except (SyntaxError, ValueError):
+            tree = ast.parse("")
+        src = r.choice(["from typing import Any, overload\n", "import typing\nfrom typing import overload\n", "from typing import *\n"])
+        if r.random() < 0.3:
+            src = '"""Docstring of the stub."""\n' + src
+        src += self._stub_body(tree.body, "")
+        if r.random() < 0.6:
+            src += f"def only_in_stub(a: {self.ann()} = ...) -> None: ...\nSTUB_ONLY: {self.ann()}\n"
+        if r.random() < 0.3:
+            src += f"class StubOnly:\n    attr: {self.ann()}\n    def method(self, a: int = ...) -> {self.ann()}: ...\n"
+        return src
+
+    def layout(self) -> tuple[list[dict[str, str]], dict]:
+        r = self.rng
+        nm = self.name
+        kind = r.choice(STUB_LAYOUTS)
+        self.features.add(f"stubs:{kind}")
+        if kind == "module-and-stub":
+            src = self.docstring("", 0.6) + self.prelude() + "LEAF_VALUE = 1\n" + self.body((2, 5))
+            self.class_alias = (nm, "LEAF_VALUE")
+            return [{f"{nm}.py": src, f"{nm}.pyi": self.stub_of(src)}], {"layout": kind, "find_stubs": r.random() < 0.5}
+        concrete = {
+            f"{nm}/__init__.py": self.docstring("", 0.7) + self.prelude() + r.choice(["from .core import *\n", f"from {nm}.core import Base\n", ""])
+            + self.body((1, 3)),
+            f"{nm}/core.py": self.docstring("", 0.5) + self.prelude() + "\n\nclass Base:\n    \"\"\"Base class.\"\"\"\n\n    x = 1\n\n\nm = 3\n"
+            + self.body((1, 3)) + self.klass("", bases=["Base"]),
+            f"{nm}/sub/__init__.py": r.choice(["from .leaf import *\n", f"from {nm}.sub.leaf import LEAF_VALUE\n", ""]),
+            f"{nm}/sub/leaf.py": self.prelude() + "LEAF_VALUE = 1\n" + self.body((0, 2)),
+        }
+        only = {"only.pyi": self.stub_of(self.prelude() + self.body((1, 2)))}
+        if r.random() < 0.5:
+            only["subonly/__init__.pyi"] = "from .deep import *\n" if r.random() < 0.5 else f"SUB_ONLY: {self.ann()}\n"
+            only["subonly/deep.pyi"] = self.stub_of(self.body((1, 2)))
+        if r.random() < 0.3:
+            only["sub/only_leaf.pyi"] = f"LEAF_ONLY: {self.ann()}\n"
+
+        def mirror(prefix: str, *, with_only: bool) -> dict[str, str]:
+            out = {}
+            for rel, src in concrete.items():
+                if r.random() < 0.75 or rel.endswith(f"{nm}/__init__.py"):
+                    out[prefix + rel[len(nm):].rsplit(".", 1)[0] + ".pyi"] = self.stub_of(src)
+            if with_only:
+                for rel, src in only.items():
+                    out[f"{prefix}/{rel}"] = src
+            return out
+
+        with_only = r.random() < 0.8
+        find = r.random() < 0.7
+        if kind == "inline":
+            return [{**concrete, **mirror(nm, with_only=with_only)}], {"layout": kind, "find_stubs": find}
+        if kind == "stubs-package":
+            return [{**concrete, **mirror(nm + "-stubs", with_only=with_only)}], {"layout": kind, "find_stubs": find}
+        if kind == "stubs-package-other-path":
+            roots = [concrete, mirror(nm + "-stubs", with_only=with_only)]
+            if r.random() < 0.4:
+                roots.reverse()
+            return roots, {"layout": kind, "find_stubs": find}
+        if kind == "stubs-only":
+            return [mirror(nm + "-stubs", with_only=with_only)], {"layout": kind, "find_stubs": True}
+        # inline stubs *and* a stubs package (in the same or another search path)
+        inline = {**concrete, **mirror(nm, with_only=False)}
+        stubs = mirror(nm + "-stubs", with_only=with_only)
+        if r.random() < 0.5:
+            return [{**inline, **stubs}], {"layout": kind, "find_stubs": find}
+        return [inline, stubs], {"layout": kind, "find_stubs": find}
+
+
+def gen_stubs_layout(rng: random.Random, name: str, depth: int = 2) -> tuple[list[dict[str, str]], dict, list[str]]:
+    """Search paths (list of file maps), load options ({'layout', 'find_stubs'}) and features of a package that comes with stubs."""
+    g = StubGen(rng, name, flavour="static", depth=depth)
+    roots, options = g.layout()
+    return roots, options, sorted(g.features)
